@@ -132,4 +132,27 @@ theorem C16_source_skeletons :
     Gen.Skel.DB_importToLTX = Expected.Skel.DB_importToLTX :=
   ⟨rfl, rfl⟩
 
+/-- The import publishes a finished file, under the write lock, on the primary only — facts proved
+    by `decide` about the skeletons regenerated from db.go (not about their equality with the
+    frozen ones): `importToLTX` reads and checks the SQLite header before it creates anything,
+    closes the encoder and syncs the temporary file before the one `Rename` that publishes it, and
+    answers the new position only after that; `Import` tests `IsPrimary` first, takes the write
+    lock before `importToLTX`, and applies the file after the journal was invalidated. -/
+theorem C16_import_publishes_a_finished_file :
+    let ix (sk : List (String × String)) (x : String × String) (d : Nat) := (sk.findIdx? (· == x)).getD d
+    let t := Gen.Skel.DB_importToLTX
+    let i := Gen.Skel.DB_Import
+    ix t ("call", "readSQLiteDatabaseHeader") 1000 < ix t ("call", "db.os.Create") 0 ∧
+    ix t ("if", "db.pageSize != 0 && hdr.PageSize != db.pageSize") 1000 < ix t ("call", "db.os.Create") 0 ∧
+    ix t ("call", "enc.Close") 1000 < ix t ("call", "f.Sync") 0 ∧
+    ix t ("call", "f.Sync") 1000 < ix t ("call", "db.os.Rename") 0 ∧
+    (t.filter (· == ("call", "db.os.Rename"))).length = 1 ∧
+    ix t ("call", "db.os.Rename") 1000 < ix t ("return", "return pos, nil") 0 ∧
+    (t.filter (· == ("return", "return pos, nil"))).length = 1 ∧
+    ix i ("if", "!db.store.IsPrimary()") 1000 < ix i ("call", "db.AcquireWriteLock") 0 ∧
+    ix i ("call", "db.AcquireWriteLock") 1000 < ix i ("call", "db.importToLTX") 0 ∧
+    ix i ("call", "db.importToLTX") 1000 < ix i ("call", "db.invalidateJournal") 0 ∧
+    ix i ("call", "db.invalidateJournal") 1000 < ix i ("call", "db.ApplyLTXNoLock") 0 := by
+  decide
+
 end LiteFSVerif.C16
